@@ -7,6 +7,13 @@ Streams
      (compared within a measured relative tolerance)
   I  identity: missing viewBox, fewer than four numbers, a non-numeric token among the first four,
      non-positive width/height of viewBox or page
+  S  call SEQUENCES in one process (state carried between calls: memos keyed on too little, stale
+     parses): the same attribute strings with scaled / swapped / non-positive / int-vs-float page sizes,
+     the same numbers with different viewBox or preserveAspectRatio strings (other spelling of the same
+     values, other values, other alignment), identical calls repeated, identity causes interleaved
+     with valid calls; every call of a sequence is judged by the oracle and compared with the model
+  M  magnitudes: viewBox coordinates 1e-6 .. 1e12 against small pages and the reverse, near-equal
+     aspect ratios (one ulp apart), viewBox size exactly equal to the page with a non-zero origin
   O  outside the quantifier (logged only): unknown align / meetOrSlice words, nan/inf tokens, more than
      four viewBox tokens, underscores in numerals
 The oracle computes the SVG-prescribed transform with Fractions from the generator's own knowledge of
@@ -136,6 +143,143 @@ def page_arg(rng, q, exact):
     return f
 
 
+def asp_of(w, h, W, H):
+    W, H = Fraction(W), Fraction(H)
+    return 'wider' if H * w < W * h else 'taller' if H * w > W * h else 'equal'
+
+
+def vcase(nums, align, mos, vb, par, W, H, exact):
+    """one valid call; W, H are the actual arguments (int/float)"""
+    x, y, w, h = nums
+    return dict(kind='V', vb=vb, par=par, W=W, H=H, nums=nums, align=align, mos=mos or 'meet', exact=exact,
+                asp=asp_of(w, h, W, H))
+
+
+def scaled(Wf, k):
+    """k * Wf as the caller would compute it (k a power of two or small integer: exact in binary64)"""
+    r = Wf * k
+    if isinstance(r, float) and r.is_integer() and isinstance(Wf, int):
+        return int(r)
+    return r
+
+
+def sequences(rng, n, tag):
+    """ordered groups of related calls (the whole run is one process, so list order = call order)"""
+    out = []
+    for i in range(n):
+        start = len(out)
+        a = rng.choice(ALIGNS)
+        m = rng.choice(['meet', 'slice', None])
+        d = rng.random() < 0.3
+        x, y, w, h, W, H, exact = boxes(rng, 1, 1)[i % 2] if i % 3 else boxes(rng, 3, 3)[rng.randint(0, 5)]
+        plain = i < 6
+        vb = vb_text(rng, [x, y, w, h], plain=plain)
+        par = par_text(rng, a, m, d, plain=plain)
+        if a == 'xMidYMid' and m is None and not d and rng.random() < 0.5:
+            par = None
+        Wf, Hf = page_arg(rng, W, exact), page_arg(rng, H, exact)
+        nums = (x, y, w, h)
+        kind = i % 8
+        if kind == 0:      # same strings, page scaled (same aspect ratio), then the first again
+            out.append(vcase(nums, a, m, vb, par, Wf, Hf, exact))
+            for k in (2, 0.5, 4, 8) if exact else (2, 0.5, 3, 10):
+                out.append(vcase(nums, a, m, vb, par, scaled(Wf, k), scaled(Hf, k), exact))
+            out.append(vcase(nums, a, m, vb, par, Wf, Hf, exact))
+        elif kind == 1:    # same strings, page transposed / one side changed
+            out.append(vcase(nums, a, m, vb, par, Wf, Hf, exact))
+            out.append(vcase(nums, a, m, vb, par, Hf, Wf, exact))
+            out.append(vcase(nums, a, m, vb, par, Wf, scaled(Hf, 2), exact))
+            out.append(vcase(nums, a, m, vb, par, scaled(Wf, 2), Hf, exact))
+            out.append(vcase(nums, a, m, vb, par, Wf, Hf, exact))
+        elif kind == 2:    # same numbers and viewBox, every alignment in turn, then the first again
+            order = ALIGNS[:]
+            rng.shuffle(order)
+            for a2 in order[:6] + [order[0]]:
+                for m2 in ('meet', 'slice'):
+                    out.append(vcase(nums, a2, m2, vb, par_text(rng, a2, m2, d, plain=plain), Wf, Hf, exact))
+        elif kind == 3:    # same numbers and preserveAspectRatio, the same viewBox values spelled differently, then other values
+            out.append(vcase(nums, a, m, vb, par, Wf, Hf, exact))
+            out.append(vcase(nums, a, m, vb_text(rng, [x, y, w, h]), par, Wf, Hf, exact))
+            n2 = (y, x, w * 2, h) if exact else (y, x, w * 3, h)
+            out.append(vcase(n2, a, m, vb_text(rng, list(n2), plain=plain), par, Wf, Hf, exact))
+            n3 = (x + 1, y - 2, w, h * 2)
+            out.append(vcase(n3, a, m, vb_text(rng, list(n3), plain=plain), par, Wf, Hf, exact))
+            out.append(vcase(nums, a, m, vb, par, Wf, Hf, exact))
+        elif kind == 4:    # identical calls repeated; int and float spellings of the same page size
+            for _ in range(3):
+                out.append(vcase(nums, a, m, vb, par, Wf, Hf, exact))
+            out.append(vcase(nums, a, m, vb, par, float(Wf), float(Hf), exact))
+            if float(Wf).is_integer() and float(Hf).is_integer():
+                out.append(vcase(nums, a, m, vb, par, int(Wf), int(Hf), exact))
+        elif kind == 5:    # identity causes between valid calls on the same strings
+            out.append(vcase(nums, a, m, vb, par, Wf, Hf, exact))
+            out.append(dict(kind='I', why='doc<=0', vb=vb, par=par, W=0, H=Hf))
+            out.append(vcase(nums, a, m, vb, par, Wf, Hf, exact))
+            out.append(dict(kind='I', why='doc<=0', vb=vb, par=par, W=Wf, H=-Hf))
+            out.append(dict(kind='I', why='missing', vb=None, par=par, W=Wf, H=Hf))
+            out.append(vcase(nums, a, m, vb, par, scaled(Wf, 2), scaled(Hf, 2), exact))
+            bad = ' '.join(vb.split()[:3]) if plain else None
+            if bad is not None:
+                out.append(dict(kind='I', why='short', vb=bad, par=par, W=Wf, H=Hf))
+                out.append(dict(kind='I', why='bad', vb=bad + ' abc', par=par, W=Wf, H=Hf))
+            out.append(dict(kind='I', why='vb<=0', vb=vb_text(rng, [x, y, -w, h], plain=plain), par=par, W=Wf, H=Hf))
+            out.append(vcase(nums, a, m, vb, par, Wf, Hf, exact))
+        elif kind == 6:    # same strings: wider, equal and taller pages in turn, each twice
+            for (W2, H2) in ((w * 2, h), (w * 2, h * 2), (w, h * 2), (w, h), (w * 2, h), (w, h * 2)):
+                out.append(vcase(nums, a, m, vb, par, float(W2), float(H2), exact))
+        else:              # other casing / separators of the same preserveAspectRatio, then defer toggled
+            out.append(vcase(nums, a, m, vb, par_text(rng, a, m, d), Wf, Hf, exact))
+            out.append(vcase(nums, a, m, vb, par_text(rng, a, m, d), scaled(Wf, 2), scaled(Hf, 2), exact))
+            out.append(vcase(nums, a, m, vb, par_text(rng, a, m, not d), scaled(Wf, 4), scaled(Hf, 4), exact))
+            out.append(vcase(nums, a, m, vb, par_text(rng, a, m, d, plain=True), Wf, Hf, exact))
+        for c_ in out[start:]:
+            c_['seq'] = (tag, i)
+    return out
+
+
+def magnitude_cases(rng, n):
+    """valid calls far from unit scale, near-equal aspect ratios, viewBox size equal to the page"""
+    out = []
+    for i in range(n):
+        a = rng.choice(ALIGNS)
+        m = rng.choice(['meet', 'slice', None])
+        par = par_text(rng, a, m, False, plain=rng.random() < 0.5)
+        kind = i % 4
+        if kind == 0:      # huge viewBox, small page (and exponent spellings)
+            e = rng.randint(3, 12)
+            w = Fraction(rng.randint(1, 9999), 10 ** rng.randint(0, 3)) * 10 ** e
+            h = Fraction(rng.randint(1, 9999), 10 ** rng.randint(0, 3)) * 10 ** rng.randint(max(3, e - 2), e + 2)
+            x = Fraction(rng.randint(-9999, 9999)) * 10 ** rng.randint(0, e)
+            y = Fraction(rng.randint(-9999, 9999)) * 10 ** rng.randint(0, e)
+            Wf = float(Fraction(rng.randint(1, 2000), 10 ** rng.randint(0, 2)))
+            Hf = float(Fraction(rng.randint(1, 2000), 10 ** rng.randint(0, 2)))
+        elif kind == 1:    # tiny viewBox, large page
+            e = rng.randint(2, 6)
+            w = Fraction(rng.randint(1, 9999), 10 ** (e + rng.randint(0, 3)))
+            h = Fraction(rng.randint(1, 9999), 10 ** (e + rng.randint(0, 3)))
+            x = Fraction(rng.randint(-9999, 9999), 10 ** rng.randint(0, e + 3))
+            y = Fraction(rng.randint(-9999, 9999), 10 ** rng.randint(0, e + 3))
+            Wf = float(rng.randint(1, 10 ** 6))
+            Hf = float(rng.randint(1, 10 ** 6))
+        elif kind == 2:    # aspect ratios one ulp apart (either side) and exactly equal in binary64 terms
+            w = Fraction(rng.randint(1, 20000), 10 ** rng.randint(0, 3))
+            h = Fraction(rng.randint(1, 20000), 10 ** rng.randint(0, 3))
+            x = Fraction(rng.randint(-5000, 5000), 10)
+            y = Fraction(rng.randint(-5000, 5000), 10)
+            Wf = float(Fraction(rng.randint(1, 20000), 10))
+            Hf = float(Fraction(Wf) * h / w)
+            Hf = rng.choice([Hf, math.nextafter(Hf, math.inf), math.nextafter(Hf, 0.0),
+                             math.nextafter(math.nextafter(Hf, math.inf), math.inf)])
+        else:              # scale exactly 1, origin not at (0, 0)
+            w = Fraction(rng.randint(1, 4000), rng.choice([1, 2, 4, 10]))
+            h = Fraction(rng.randint(1, 4000), rng.choice([1, 2, 4, 10]))
+            x = Fraction(rng.randint(-400, 400), rng.choice([1, 2, 10]))
+            y = Fraction(rng.randint(-400, 400), rng.choice([1, 2, 10]))
+            Wf, Hf = page_arg(rng, w, False), page_arg(rng, h, False)
+        out.append(vcase((x, y, w, h), a, m, vb_text(rng, [x, y, w, h], plain=rng.random() < 0.3), par, Wf, Hf, False))
+    return out
+
+
 def run(ctx):
     from plotink import plot_utils as pu
     rng = ctx.rng
@@ -149,6 +293,11 @@ def run(ctx):
                 for line in open(os.path.join(cdir, fn)):
                     if line.strip():
                         cases.append(json.loads(line))
+
+    # ---------------- S: call sequences (first: nothing has been memoised yet) ----------------
+    cases += sequences(rng, ctx.n(48), 'first')
+    # ---------------- M: magnitudes / near ties / coincidences ----------------
+    cases += magnitude_cases(rng, ctx.n(400))
 
     # ---------------- V: valid ----------------
     combos = [(a, m, d) for a in ALIGNS for m in ('meet', 'slice', None) for d in (False, True)]
@@ -198,6 +347,9 @@ def run(ctx):
             for (WW, HH) in ((0, Hf), (Wf, 0), (-Wf, Hf), (Wf, -Hf), (0.0, Hf), (Wf, -0.0), (0, 0), (-1, -1)):
                 cases.append(dict(kind='I', why='doc<=0', vb=vb_text(rng, [x, y, w, h]), par=a, W=WW, H=HH))
 
+    # ---------------- S again, after a long history of other calls ----------------
+    cases += sequences(rng, ctx.n(24), 'late')
+
     # ---------------- O: outside the quantifier ----------------
     for _ in range(max(1, ctx.n(4) // 4)):
         for par in ('xMidYMid foo', 'xmidymi', 'meet', 'slice xMinYMin', 'xMinYMin;slice', 'xMin YMin', 'defer defer xMinYMin',
@@ -224,8 +376,14 @@ def run(ctx):
         rel = float(d / scale) if scale else (0.0 if d == 0 else math.inf)
         return rel <= TOL, rel
 
+    seq_hist = {}
     for c, out in zip(cases, outs):
         inp = {'v_b': c['vb'], 'p_a_r': c['par'], 'doc_width': repr(c['W']), 'doc_height': repr(c['H'])}
+        if 'seq' in c:      # a call of a sequence: the earlier calls of the sequence belong to the failing input
+            h_ = seq_hist.setdefault(c['seq'], [])
+            if h_:
+                inp['earlier_calls_of_the_sequence'] = [list(t_) for t_ in h_]
+            h_.append((c['vb'], c['par'], repr(c['W']), repr(c['H'])))
         key = (c['vb'], c['par'], repr(c['W']), repr(c['H']))
         mpath = None
         mvals = None
